@@ -249,3 +249,44 @@ contract(FP, 'Pfuncn.__embed__', props=('C13',), params={'self': 'self', 'inval'
          loops={0: Loop(inv=funcn_pass, over=counts('repeats'), kinds={'inval': 'obj', 'i': 'int'}, havoc_hook=remember_inval)},
          policies={'counter': counter_pol}, class_modules={'Pfuncn': FP},
          hooks={'call': fn_call}, opts={'generator_trace': True}, native=False)
+
+
+# ---- Ptime (timepatterns.py): beats since the embedding --------------------------------------------------------------------------
+# the beat of the current thread is read ONCE when the embedding starts; every pass (bi.counter(repeats)) reads it again
+# and yields (that reading - the first one)
+FT = 'sc3/seq/patterns/timepatterns.py'
+
+
+def pt_getattr(eng, obj, name, st, node):
+    if obj.k == 'ref' and obj.cls == 'TimeThread' and name == '_beats':
+        z = z3.Real('beats!%d' % next(eng.counter))
+        st.trace.append(('beats-read', z))
+        return [(st, vreal(z))]
+    return None
+
+
+def ptime_pass(c, L):
+    full = since(c.trace, 0)
+    if not full or L.phase != 'after':
+        return z3.BoolVal(True)
+    reads = [e for e in full if e[0] == 'beats-read']
+    ys = [e for e in full if e[0] == 'yield']
+    first = [e for e in c.trace if e[0] == 'beats-read']
+    heads = [i for i, e in enumerate(c.trace) if e[0] == 'loop-head']
+    if len(reads) != 1 or len(ys) != 1 or ys[0][1].k != 'real' or not first or c.trace.index(first[0]) > heads[0]:
+        return z3.BoolVal(False)
+    return ys[0][1].z == reads[0][1] - first[0][1]                          # now - the beat at which the embedding began
+
+
+def ptime_post(c):
+    heads = [i for i, e in enumerate(c.trace) if e[0] == 'loop-head']
+    pre = [e for e in (c.trace[:heads[0]] if heads else c.trace) if e[0] == 'beats-read']
+    return z3.BoolVal(len(pre) == 1 and c.resultv is c.st.env['inval'])     # read once before the first value
+
+
+contract(FT, 'Ptime.__embed__', props=('C13',), params={'self': 'self', 'inval': 'obj'},
+         ensures=[('start-beat-read-once;returns-the-threaded-input-value', ptime_post)],
+         fields={'Ptime': {'repeats': 'obj'}, 'Main': {'current_tt': 'ref:TimeThread'}, 'TimeThread': {}},
+         loops={0: Loop(inv=ptime_pass, over=counts('repeats'), kinds={'inval': 'obj', '_': 'int'})},
+         policies={'counter': counter_pol}, class_modules={'Ptime': FT, 'TimeThread': 'sc3/base/stream.py'},
+         hooks={'getattr': pt_getattr}, opts={'generator_trace': True}, native=False)
